@@ -77,37 +77,41 @@ func StdActions(w *World) []Action {
 			acts = append(acts, Action{Label: fmt.Sprintf("deliver:%s", w.Names[idx]), Do: func(w *World) { w.Deliver(ti, idx) }})
 		}
 	}
-	for _, p := range w.Peers {
-		b := o.Behaviour[p.Name]
-		if b == nil || !b.Honest || !p.Connected() {
-			continue
-		}
-		p := p
-		if p.GotHS && !p.Announced {
-			acts = append(acts, Action{Label: "peer:" + p.Name + ":announce", Do: func(w *World) {
-				bf := b.Have
-				if bf == nil {
-					bf = w.G.AllBitfield()
-				}
-				var buf bytes.Buffer
-				buf.Write(refcodec.Bitfield(bf).Encode())
-				for _, m := range b.ExtraMsgs {
-					buf.Write(m.Encode())
-				}
-				if !b.NoUnchoke {
-					buf.Write(refcodec.Simple(refcodec.MsgUnchoke).Encode())
-				}
-				p.SendRaw(buf.Bytes())
-				p.Announced = true
-			}})
-		}
-		if p.Announced && len(p.Requests) > 0 {
-			acts = append(acts, Action{Label: "peer:" + p.Name + ":serve", Do: func(w *World) {
-				if r, ok := p.PopRequest(); ok {
-					p.Serve(w.G, r, false)
-					w.Count("blocks_served", 1)
-				}
-			}})
+	// honest peers: every pending announce (bitfield + unchoke) comes before any block is served, so that
+	// all connected sources are in play before the first answer
+	for pass := 0; pass < 2; pass++ {
+		for _, p := range w.Peers {
+			b := o.Behaviour[p.Name]
+			if b == nil || !b.Honest || !p.Connected() {
+				continue
+			}
+			p := p
+			if pass == 0 && p.GotHS && !p.Announced {
+				acts = append(acts, Action{Label: "peer:" + p.Name + ":announce", Do: func(w *World) {
+					bf := b.Have
+					if bf == nil {
+						bf = w.G.AllBitfield()
+					}
+					var buf bytes.Buffer
+					buf.Write(refcodec.Bitfield(bf).Encode())
+					for _, m := range b.ExtraMsgs {
+						buf.Write(m.Encode())
+					}
+					if !b.NoUnchoke {
+						buf.Write(refcodec.Simple(refcodec.MsgUnchoke).Encode())
+					}
+					p.SendRaw(buf.Bytes())
+					p.Announced = true
+				}})
+			}
+			if pass == 1 && p.Announced && len(p.Requests) > 0 {
+				acts = append(acts, Action{Label: "peer:" + p.Name + ":serve", Do: func(w *World) {
+					if r, ok := p.PopRequest(); ok {
+						p.Serve(w.G, r, false)
+						w.Count("blocks_served", 1)
+					}
+				}})
+			}
 		}
 	}
 	for _, t := range w.Trackers {
